@@ -50,6 +50,21 @@ CHECKS = {
     technique="TLA+ pipeline model with fault-injection scenarios (Pipeline.tla) checked by TLC; every scenario rendered and run through the real binary; traces validated by TLC (PipelineTrace.tla); token-level faults with the pipeline's own in-process detection as oracle",
     text="Every assignment of {none, missing, unreadable, bad pragma, syntax fault, unresolved include} to 2 (thorough: 3) named files x {none, malformed tuple, anonymous component in an expression, duplicate parameters, duplicate definition} to their definitions x 0..2 main components is generated by TLC (whose model is checked for NoSilentFailure / CleanMeansComplete / termination), rendered with rotating fault details (4 pragma versions, invalid UTF-8 or dangling symlink, `@` at every token position, several sugar shapes) and run through the real binary at --level warning and --level error. PipelineTrace.tla accepts a run iff every fault present has an error-level diagnostic naming the right file, the status is 1, and status 0 comes with every definition analysed. Delete/duplicate(/swap) mutations at every token position are judged against what the pipeline itself detects in-process.",
     note="Default level and --level error only (an id put in --allow is hidden by request, C03); attribution of a diagnostic to a fault class by id, message stem and file."),
+ "C12": dict(
+    level="model_checking", design="§5 C12",
+    technique="TLC-enumerated statement trees (CfgBuild.tla) rendered, parsed and lifted by the real code; the exported graph judged by the well-formedness clauses of CfgTrace.tla (path-based dominance, mirror, branch placement, targets, fan-out, index order, loop depth)",
+    text="Every function body derivable in <= 12 (thorough: 14) expansion steps -- all nestings and sequences of if / if-else / while / for with braced and bare arms, empty blocks, returns, loops first or last -- is rendered, parsed by the real parser and lifted; the exported pre-SSA and SSA graphs must satisfy each clause of the statement, evaluated in TLA+ on the exported graph itself (so any renumbering that still satisfies the statement passes). Loop depth is compared with the nesting the generator knows for each statement.",
+    note="Statements are identified in the export by the literal they carry; quick tier samples the largest size class (all smaller bodies kept)."),
+ "C13": dict(
+    level="model_checking", design="§5 C13",
+    technique="Reference executor of the structured source (CfgTrace.tla SrcStep) run in lock-step with a walker of the exported graph; TLC explores every decision sequence up to the unrolling bound",
+    text="For every generated body TLC explores all sequences of branch and loop decisions (each condition true at most twice, <= 40 (60) emissions): the statement the structured source executes next must be the statement the walk of the exported graph meets next, up to and including the first return, on the pre-SSA and on the SSA graph. `for` loops and compound assignments are primitive in the source tree and expanded only by the real parser, so the expansion itself is checked.",
+    note="Bounded unrolling; bodies within the generator's bound; the walker takes the false edge from false_index, else the unique other successor."),
+ "C14": dict(
+    level="model_checking", design="§5 C14",
+    technique="Static SSA clauses and a path walker over the exported SSA graph in CfgTrace.tla; TLC explores every path up to the unrolling bound keeping the current version of each variable",
+    text="On the SSA graph exported from the real code: one definition per version, phis only at block heads, every non-phi read dominated by its definition (path-based dominance computed in TLA+), every version declared, signals/components unversioned; and along every explored path each read names the version most recently assigned on that path and each phi met from a predecessor holds the version that reaches it. Bodies assign and read two locals in all rotated patterns (assigned in one branch only, in loops, read in conditions, for-loop counters).",
+    note="Arrays updated element-wise and shadowed names are exercised by C10/C06 generators rather than here; bounded unrolling."),
 }
 
 NOT_YET = "check not built yet (work in progress; see DESIGN.md §8 for the order)"
